@@ -120,6 +120,30 @@ def implements(fam, t, it):
     return True, ""
 
 
+def missing_names(fam, t, it):
+    """names of ALL methods of interface it that t's method set lacks (Go's rules)"""
+    ms = mset(fam, t)
+    out = []
+    for m in under(fam, it)["ms"]:
+        got = ms.get((m["name"], m["pkg"]))
+        if got is None or not ident(got[0], m["sig"]):
+            out.append(m["name"])
+    return out
+
+
+def norm_missing(fam, answers, spec):
+    """Which of several missing methods a failed assertion NAMES is an implementation detail (Go's run-time walks its own
+    sorted method tables, gopherjs the interface's method list).  When more than one method is missing, an answer naming
+    any of them is rewritten to the canonical one (the spec's), so that all later comparisons can stay exact; with exactly
+    one missing method nothing is rewritten."""
+    out = []
+    for a, sp in zip(answers, spec):
+        if a[0] == "assert" and sp[0] == "assert" and not a[1] and not sp[1] and len(sp) > 3 and len(sp[3]) > 1 and a[2] in sp[3]:
+            a = ["assert", False, sp[2]]
+        out.append(a)
+    return out
+
+
 def spec_assert(fam, t, target):
     if is_iface(fam, target):
         return implements(fam, t, target)
@@ -249,12 +273,20 @@ def spec_answers(fam):
         if p[0] == "ident": out.append(["ident", ident(U[p[1]], U[p[2]])])
         elif p[0] == "assert":
             ok, m = spec_assert(fam, U[p[1]], U[p[2]])
-            out.append(["assert", ok, m])
+            out.append(["assert", ok, m, missing_names(fam, U[p[1]], U[p[2]]) if is_iface(fam, U[p[2]]) else []])
         elif p[0] == "mset":
             out.append(["mset", sorted([k[0], k[1], v[1]] for k, v in mset(fam, U[p[1]]).items())])
         elif p[0] == "eq":
             out.append(["eq", spec_equal(fam, p[1], p[2], iface([]))])
     return out
+
+
+def ans_eq_loose(a, b, sp):
+    """like ans_eq, but a failed assertion may name ANY of the missing methods when Go's rules say several are missing
+    (sp = the spec answer of the probe, carrying the list of missing names)"""
+    if a[0] == "assert" and b[0] == "assert" and not a[1] and not b[1] and sp[0] == "assert" and len(sp) > 3 and len(sp[3]) > 1:
+        return a[2] in sp[3] and b[2] in sp[3]
+    return ans_eq(a, b)
 
 
 def ans_eq(a, b):
